@@ -394,7 +394,7 @@ fn stress(pcf: u64, ops: u16, workers: usize, evictor: bool, env: &mut CaseEnv) 
         let _ = h.join();
     }
     if let Some(mut f) = failure.lock().unwrap().take() {
-        if evictor && ((f.message.contains("unexpected cells (") && f.message.contains("Null")) || f.message.contains("= NULL") || f.message.contains("v = NULL") || f.message.contains("is missing") || f.message.contains("Expected string column when querying _meta_columns")) {
+        if evictor && ((f.message.contains("unexpected cells (") && f.message.contains("Null")) || f.message.contains("unknown batch 9223372036854775807") || f.message.contains("= NULL") || f.message.contains("v = NULL") || f.message.contains("is missing") || f.message.contains("Expected string column when querying _meta_columns")) {
             // known finding: a column of a not yet persisted partition was evicted and reads as NULL
             f = f.tag("null_column_under_eviction");
             if env.kf_absorb("C10", &f).is_some() {
